@@ -7,7 +7,40 @@ def num(x):
         return float(Fraction(int(x['frac'][0]), int(x['frac'][1])))
     return x
 
+def replay_writer(d):
+    import t2data as T, t2grids as G
+    import os, tempfile
+    dat = T.t2data()
+    r = G.rocktype(); dat.grid.add_rocktype(r)
+    blks = [G.t2block(n, 1.0, r) for n in (' a  1', ' b  2', ' c  3')]
+    for b in blks: dat.grid.add_block(b)
+    con = G.t2connection([blks[0], blks[1]], 1, [1., 1.], 1., 0.)
+    dat.grid.add_connection(con)
+    dat.grid.add_connection(G.t2connection([blks[1], blks[2]], 1, [1., 1.], 1., 0.))
+    big = int(d['big'])
+    for b in blks: dat.incon[b.name] = [0.1, [1.e5, 20.]]
+    gen = T.t2generator(name=' ge 1', block=' b  2', gx=1.0)
+    dat.add_generator(gen); dat.add_generator(T.t2generator(name=' ge 2', block=' c  3', gx=2.0))
+    w = d['writer']
+    if w == 'incon-nseq': dat.incon[' b  2'] = [0.1, [1.e5, 20.], big, 1]
+    elif w == 'incon-nadd': dat.incon[' b  2'] = [0.1, [1.e5, 20.], 1, big]
+    elif w == 'block-nseq': blks[1].nseq = big; blks[1].nadd = 1
+    elif w == 'connection-nseq': con.nseq = big
+    elif w == 'generator-nseq': gen.nseq = big
+    tmp = tempfile.mkdtemp(); f = os.path.join(tmp, 'w.dat')
+    try:
+        try:
+            dat.write(f)
+        except ValueError as ex:
+            return False, 'write raised ValueError: %s (fails loudly)' % ex
+        txt = open(f).read()
+        return True, 'write returned normally for %s = %d; the file has %d lines and does not contain the value' % (w, big, txt.count(chr(10)))
+    finally:
+        import shutil; shutil.rmtree(tmp, ignore_errors=True)
+
+
 def replay(d):
+    if 'writer' in d: return replay_writer(d)
     import fixed_format_file as fff
     import t2data, t2incons, mulgrids
     tables = {'t2data': (t2data.t2data_format_specification, fff.default_read_function),
@@ -46,7 +79,14 @@ def replay(d):
             if len(own) <= w:
                 if not (isinstance(got, float) and got == float(own)): bad.append((i, v, got))
             else:
+                # over-wide: precision may be lost in this one value, but as little as the columns allow
+                fmt, _, prec = s[:-1].partition('.')
+                best = None
+                for p_ in range(int(prec) - 1, -1, -1):
+                    txt = ('%' + fmt + '.' + str(p_) + typ) % v
+                    if len(txt) <= w: best = float(txt); break
                 if not (isinstance(got, float) and abs(got - v) <= abs(v) / 2): bad.append((i, v, got))
+                elif best is not None and got != best: bad.append((i, v, got, 'best representable in %d columns: %r' % (w, best)))
         elif typ == 'd':
             if got != v: bad.append((i, v, got))
         elif typ == 's':
